@@ -59,6 +59,16 @@ static void scriptEdge() {   /* edge-triggered registrations */
   close(sv[1]); CALL("et_wait_peer_closed", epoll_wait(ep, out, 4, 0)); R("et_ev_peer_closed", out[0].events); CALL("et_wait_peer_closed_again", epoll_wait(ep, out, 4, 0));
   close(sv[0]); close(ep);
 }
+static void scriptDupKeepsRegistration() {   /* an epoll registration belongs to the open file description, not to the descriptor number */
+  int sv[2]; CALL("socketpair", socketpair(AF_UNIX, SOCK_STREAM, 0, sv)); fcntl(sv[0], F_SETFL, O_NONBLOCK);
+  int d = 650; CALL("dup2", dup2(sv[0], d) == d ? 0 : -1);
+  int ep = epoll_create1(0); struct epoll_event ev, out[4]; ev.events = EPOLLIN; ev.data.u64 = 5; char b[8] = {0};
+  CALL("add", epoll_ctl(ep, EPOLL_CTL_ADD, sv[0], &ev)); CALL("close_registered_number", close(sv[0]));
+  CALL("peer_send", send(sv[1], b, 3, MSG_NOSIGNAL)); CALL("wait_after_close", epoll_wait(ep, out, 4, 0)); R("data_after_close", (long)out[0].data.u64);
+  CALL("del_closed_number", epoll_ctl(ep, EPOLL_CTL_DEL, sv[0], &ev));
+  CALL("close_duplicate", close(d)); CALL("wait_after_last_close", epoll_wait(ep, out, 4, 0));
+  close(sv[1]); close(ep);
+}
 static void scriptEventfd() {
   int e = eventfd(0, EFD_NONBLOCK); uint64_t v = 0; CALL("read_zero", read(e, &v, 8)); v = 1; CALL("write1", write(e, &v, 8)); v = 2; CALL("write2", write(e, &v, 8)); v = 0; CALL("read", read(e, &v, 8)); R("value", (long)v); CALL("read_again", read(e, &v, 8));
   int ep = epoll_create1(0); struct epoll_event ev, out[2]; ev.events = EPOLLIN | EPOLLRDHUP | EPOLLHUP; ev.data.ptr = 0; epoll_ctl(ep, EPOLL_CTL_ADD, e, &ev); CALL("wait_none", epoll_wait(ep, out, 2, 0)); v = 1; (void)!write(e, &v, 8); CALL("wait_in", epoll_wait(ep, out, 2, 0)); R("ev", out[0].events & EPOLLIN);
@@ -121,7 +131,7 @@ static std::vector<std::string> runReal(void (*fn)()) { std::vector<std::string>
 
 int main() {
   int bad = 0;
-  struct { const char* name; void (*fn)(); } diff[] = {{"sockets+epoll", scriptSockets}, {"edge-triggered epoll", scriptEdge}, {"eventfd", scriptEventfd}, {"pipes+select+dup2", scriptPipes}, {"tcp loopback", scriptTcp}};
+  struct { const char* name; void (*fn)(); } diff[] = {{"sockets+epoll", scriptSockets}, {"edge-triggered epoll", scriptEdge}, {"dup keeps registration", scriptDupKeepsRegistration}, {"eventfd", scriptEventfd}, {"pipes+select+dup2", scriptPipes}, {"tcp loopback", scriptTcp}};
   for (auto& d : diff) {
     std::vector<std::string> real = runReal(d.fn);
     bool unavailable = false; for (auto& r : real) if (r.find("bind=-1") == 0 || r.find("socketpair=-1") == 0 || r.find("accepted=0") == 0) unavailable = true;
